@@ -270,7 +270,7 @@ Proof. exact (normalize_simple cc raw). Qed.
 Print Assumptions regimes_running_only_the_generic_normalisation.
 
 Theorem regimes_with_alternative_country_codes cc cc' alts raw :
-  In (cc, (cc', alts)) multi_regimes -> normalize cc raw = (cc', norm_generic cc alts raw).
+  In (cc, (cc', alts)) multi_regimes -> normalize cc raw = (cc', norm_generic cc' alts raw).
 Proof. exact (normalize_multi cc cc' alts raw). Qed.
 Print Assumptions regimes_with_alternative_country_codes.
 
@@ -286,11 +286,10 @@ Theorem FR_normalisation_prefixes_the_key_of_a_valid_SIREN raw :
 Proof. exact (normalize_FR raw). Qed.
 Print Assumptions FR_normalisation_prefixes_the_key_of_a_valid_SIREN.
 
-(* BR and US codes are not normalised at all (BR: regimes/br/br.go never registers Normalize) *)
-Theorem BR_and_US_codes_are_left_as_written raw :
-  normalize (bs "BR") raw = (bs "BR", raw) /\ normalize (bs "US") raw = (bs "US", raw).
-Proof. exact (normalize_BR_US raw). Qed.
-Print Assumptions BR_and_US_codes_are_left_as_written.
+(* US codes are not normalised at all (the US regime has no normaliser) *)
+Theorem US_codes_are_left_as_written raw : normalize (bs "US") raw = (bs "US", raw).
+Proof. exact (normalize_US raw). Qed.
+Print Assumptions US_codes_are_left_as_written.
 
 (* idempotence: exact guard for any country / alternative prefixes ... *)
 Theorem normalisation_idempotent_iff_no_prefix_left cc alts s :
@@ -314,9 +313,9 @@ Proof. exact normalize_idempotent_refuted. Qed.
 Print Assumptions normalisation_idempotent_unguarded_refuted.
 
 Theorem normalisation_with_alternative_codes_idempotent_iff cc cc' alts raw :
-  In (cc, (cc', alts)) multi_regimes -> cc' = cc ->
+  In (cc, (cc', alts)) multi_regimes ->
   (snd (normalize cc (snd (normalize cc raw))) = snd (normalize cc raw)
-   <-> Forall (fun p => p = [] \/ has_prefix p (snd (normalize cc raw)) = false) (cc :: alts)).
+   <-> Forall (fun p => p = [] \/ has_prefix p (snd (normalize cc raw)) = false) (cc' :: alts)).
 Proof. exact (normalize_multi_idempotent_iff cc cc' alts raw). Qed.
 Print Assumptions normalisation_with_alternative_codes_idempotent_iff.
 
@@ -352,14 +351,6 @@ Theorem normalisation_ignores_one_leading_country_prefix cc alts p s :
   norm_generic cc alts (p ++ s) = norm_generic cc alts s.
 Proof. exact (norm_generic_prefix cc alts p s). Qed.
 Print Assumptions normalisation_ignores_one_leading_country_prefix.
-
-(* ... except for Greece given as GR: its own prefix EL survives the first normalisation *)
-Theorem normalisation_of_GR_ignores_an_EL_prefix_refuted :
-  exists raw, has_prefix (bs "EL") (clean raw) = false /\
-    snd (normalize (bs "GR") (bs "EL" ++ raw)) <> snd (normalize (bs "GR") raw) /\
-    snd (normalize (bs "EL") (snd (normalize (bs "GR") (bs "EL" ++ raw)))) = snd (normalize (bs "GR") raw).
-Proof. exact normalize_GR_keeps_EL_prefix. Qed.
-Print Assumptions normalisation_of_GR_ignores_an_EL_prefix_refuted.
 
 Example separators_and_prefixes_exist :
   separators (bs " .-/_") /\ clean (bs "es-") = bs "ES" /\ has_prefix (bs "ES") (clean (bs "b85.905.495")) = false.
@@ -442,52 +433,21 @@ Theorem BE_accepts_exactly_the_published_rule c : valid_BE c = true <-> c = [] \
 Proof. exact (valid_BE_iff_spec c). Qed.
 Print Assumptions BE_accepts_exactly_the_published_rule.
 
-(* NL: the implementation accepts the published rule plus "remainder 10 with check digit 0" *)
-Theorem NL_accepts_exactly c :
-  valid_NL c = true <->
-  c = [] \/ (nl_shape c /\ (nl_eleven_test c \/ nl_remainder_10_as_0 c \/ nl_97_test c)).
-Proof. exact (valid_NL_iff c). Qed.
-Print Assumptions NL_accepts_exactly.
+Theorem NL_accepts_exactly_the_published_rule c : valid_NL c = true <-> c = [] \/ Spec_NL c.
+Proof. exact (valid_NL_iff_spec c). Qed.
+Print Assumptions NL_accepts_exactly_the_published_rule.
 
-Theorem NL_accepts_every_code_of_the_published_rule c : Spec_NL c -> valid_NL c = true.
-Proof. exact (nl_published_sound c). Qed.
-Print Assumptions NL_accepts_every_code_of_the_published_rule.
-
-Theorem NL_accepts_exactly_the_published_rule_unless_remainder_10 c :
-  ~ nl_remainder_10_as_0 c -> (valid_NL c = true <-> c = [] \/ Spec_NL c).
-Proof. exact (valid_NL_iff_spec_unless_remainder_10 c). Qed.
-Print Assumptions NL_accepts_exactly_the_published_rule_unless_remainder_10.
-
-Theorem NL_accepts_exactly_the_published_rule_refuted :
-  exists c, valid_NL c = true /\ c <> [] /\ ~ Spec_NL c.
-Proof. exact nl_published_refuted. Qed.
-Print Assumptions NL_accepts_exactly_the_published_rule_refuted.
-
-(* GB (9 digits): the implementation follows the published rule with check number
-   (97 - sum mod 97) mod 97 in place of 97 - sum mod 97: they differ when the sum is a multiple of 97 *)
-Theorem GB_accepts_exactly_the_rule_with_its_own_check_number c :
+(* GB (9 digits) *)
+Theorem GB_accepts_exactly_the_published_rule c :
   List.length c = 9%nat ->
-  (digits_n 9 c = true /\ gb_commercial c = true <-> Spec_GB_commercial_with gb_check_number_impl c).
-Proof. exact (gb_commercial_iff_impl_spec_9 c). Qed.
-Print Assumptions GB_accepts_exactly_the_rule_with_its_own_check_number.
-
-Theorem GB_accepts_exactly_the_published_rule_unless_sum_multiple_of_97 c :
-  List.length c = 9%nat -> gb_weighted c mod 97 <> 0 ->
   (digits_n 9 c = true /\ gb_commercial c = true <-> Spec_GB_commercial c).
 Proof. exact (gb_commercial_iff_spec_9 c). Qed.
-Print Assumptions GB_accepts_exactly_the_published_rule_unless_sum_multiple_of_97.
-
-Theorem GB_accepts_exactly_the_published_rule_refuted :
-  (gb_commercial (bs "930000200") = true /\ ~ Spec_GB_commercial (bs "930000200")) /\
-  (gb_commercial (bs "930000297") = false /\ Spec_GB_commercial (bs "930000297")).
-Proof. exact gb_published_deviation_refuted. Qed.
-Print Assumptions GB_accepts_exactly_the_published_rule_refuted.
+Print Assumptions GB_accepts_exactly_the_published_rule.
 
 Example published_rules_are_satisfiable :
-  Spec_NL (bs "029729975B45") /\ ~ nl_remainder_10_as_0 (bs "029729975B45") /\
-  gb_weighted (bs "957117743") mod 97 <> 0.
+  Spec_NL (bs "029729975B45") /\ Spec_GB_commercial (bs "930000297").
 Proof.
-  split; [|split; vm_compute; intuition discriminate].
-  destruct (proj1 (valid_NL_iff_spec_unless_remainder_10 (bs "029729975B45") ltac:(vm_compute; intuition discriminate))
-              ltac:(vm_compute; reflexivity)) as [E|S]; [discriminate E | exact S].
+  split.
+  - destruct (proj1 (valid_NL_iff_spec (bs "029729975B45")) ltac:(vm_compute; reflexivity)) as [E|S]; [discriminate E | exact S].
+  - apply (gb_commercial_iff_spec_9 (bs "930000297") eq_refl). split; vm_compute; reflexivity.
 Qed.
